@@ -83,15 +83,26 @@ def collect(cases, res, failing, what, sig_fn=None, corr_name="corr_client"):
 
 
 def sub_oracles(ctx, res, failing, oracles, name):
-    """evaluate the named sub-oracles on the failing cases only; returns {case index: {oracle: bool}}"""
+    """evaluate the named sub-oracles on the failing cases only (one parallel coqc pass);
+    returns {case index: {oracle: bool}}"""
+    import os
     idx = [i for i, (c_ok, o_ok) in sorted(failing.items()) if not o_ok]
     out = {i: {} for i in idx}
     if not idx:
         return out
-    gal = [res[i][1] for i in idx]
-    for o in oracles:
-        f = srvprops.coq_eval(ctx, f"{name}_{o}", gal, f=o, g=o, require="Corr.RunClient", typ="ccase",
-                              checker="check_ccases", shard=25)
-        for j, i in enumerate(idx):
-            out[i][o] = j not in f
+    paths, bases = [], []
+    for si, chunk in enumerate(common.chunks(list(enumerate(idx)), 4)):
+        body = ("From Hermes Require Import Corr.RunClient.\n"
+                "Definition cases : list ccase := [\n" + ";\n".join(res[i][1] for _, i in chunk) + "\n].\n"
+                f"Eval vm_compute in (check_bits [{'; '.join(oracles)}] cases).\n")
+        p = os.path.join(ctx.work, f"cases_{name}_{si}.v")
+        with open(p, "w") as fh:
+            fh.write(body)
+        paths.append(p)
+        bases.append(chunk[0][0])
+    outs = common.run_coqc_many(paths)
+    for p, base in zip(paths, bases):
+        for j, bits, _ in common.parse_results(outs[p]):
+            for b, o in enumerate(oracles):
+                out[idx[base + j]][o] = bool((bits >> b) & 1)
     return out
